@@ -65,9 +65,17 @@ CHUNK_EXT = (
 # Pre-compiled regular expressions for use elsewhere
 ONLY_HEXDIG_RE = re.compile(("^" + HEXDIG + r"+\Z").encode("latin-1"))
 ONLY_DIGIT_RE = re.compile(("^" + DIGIT + "+$").encode("latin-1"))
+# The white space in front of the value is matched together with it (the parser
+# strips the value anyway): with a separate optional OWS on both sides of an
+# optional value, a line of nothing but white space that fails at its last byte
+# was matched in quadratic time (each split of the white space was tried).
 HEADER_FIELD_RE = re.compile(
     (
-        "^(?P<name>" + TOKEN + "):" + OWS + "(?P<value>" + FIELD_VALUE + ")" + OWS + "$"
+        "^(?P<name>"
+        + TOKEN
+        + "):(?P<value>(?:[ \t]*"
+        + FIELD_CONTENT
+        + ")?)[ \t]*$"
     ).encode("latin-1")
 )
 QUOTED_PAIR_RE = re.compile(QUOTED_PAIR)
